@@ -22,6 +22,7 @@ mod vconv;
 mod spatial;
 mod geom;
 mod matprog;
+mod numlift;
 
 /// an angle value as a list of tokens (shared by the drivers)
 pub fn xform_token(a: q::Q) -> serde_json::Value { xform::token_of(a) }
@@ -47,6 +48,8 @@ fn main() {
         ("drive", "bezier") => bezier::drive_bezier(rest),
         ("drive", "bezext") => bezier::drive_bezext(rest),
         ("drive", "bezlen") => bezier::drive_bezlen(rest),
+        ("replay", "num") => numlift::replay(rest),
+        ("drive", "numcast") => numlift::drive_numcast(rest),
         ("drive", "matprog") => matprog::drive_matprog(rest),
         ("drive", "boxes") => geom::drive_boxes(rest),
         ("drive", "shapes") => geom::drive_shapes(rest),
